@@ -373,12 +373,30 @@ def render_sdl(m, order=None):
 
 
 # ---------------- programmatic construction ----------------
-def build_programmatic(m, default_mode='literal'):
+class _Subclassed:
+    """The graphql namespace with every type class replaced by a trivial subclass of it (applications subclass the type
+    classes to attach their own attributes; such a schema is as valid as one made of the library's own classes)."""
+    NAMES = ('GraphQLList', 'GraphQLNonNull', 'GraphQLScalarType', 'GraphQLEnumType', 'GraphQLInputObjectType', 'GraphQLInterfaceType',
+             'GraphQLObjectType', 'GraphQLUnionType')
+
+    def __init__(self, G):
+        self._G = G
+        for n in self.NAMES:
+            setattr(self, n, type('App' + n[7:], (getattr(G, n),), {}))
+
+    def __getattr__(self, name):
+        return getattr(self._G, name)
+
+
+def build_programmatic(m, default_mode='literal', subclassed=False):
     """Assemble a GraphQLSchema from constructors (no SDL involved).
 
     default_mode: 'literal' (GraphQLDefaultInput(literal=parsed AST)) | 'value' (external Python value)
+    subclassed: use trivial subclasses of the library's type classes for every named type and wrapper
     """
     import graphql as G
+    if subclassed:
+        G = _Subclassed(G)
     from graphql.language import parse_const_value
     from graphql.type import GraphQLDefaultInput
     objs = {}
